@@ -227,6 +227,12 @@ def make_diff(oid, kind, op, lead, n_edge, normalize=False, tiers=("quick", "tho
         if dtype != "float":
             vals = [z3.ToReal(x) for x in vals]
         out = da.difference(destination="edge") if op == "difference" else da.gradient(normalize=normalize)
+        # the operation only reads the grid: the distances and the incidence tables it used are reported as before
+        now_d = g.edge_face_distances.values.flat_list()
+        now_ef = g.edge_face_connectivity.values.flat_list()
+        ctx.prove("the grid's edge_face_distances and edge_face_connectivity are left as they were by the operation",
+                  z3.And(*[_r(a) == b for a, b in zip(now_d, df)], *[sc.z(a) == b for a, b in zip(now_ef, [x for r in ef for x in r])],
+                         z3.BoolVal(len(now_d) == len(df))))
         ov = out.values
         ctx.prove("dims end in n_edge, same grid, shape", sc.and_(tuple(out.dims) == tuple(dims[:-1]) + ("n_edge",), out.uxgrid is g,
                                                                  ov.shape_cap == tuple(lead) + (n_edge,)))
@@ -281,6 +287,9 @@ def make_diff(oid, kind, op, lead, n_edge, normalize=False, tiers=("quick", "tho
             exp = exp / np.linalg.norm(exp)
         if tuple(out.dims) != tuple(dims[:-1]) + ("n_edge",) or out.uxgrid is not g:
             return f"result dims {out.dims} / grid wrong"
+        if not np.allclose(np.asarray(g.edge_face_distances.values, dtype=float), df) or not np.array_equal(np.asarray(g.edge_face_connectivity.values), ef):
+            return (f"{op}() changed what the grid reports: edge_face_distances {np.asarray(g.edge_face_distances.values).tolist()} (were {df.tolist()}), "
+                    f"edge_face_connectivity {np.asarray(g.edge_face_connectivity.values).tolist()} (was {ef.tolist()})")
         got = np.asarray(out.values, dtype=float)
         if got.shape != exp.shape or not np.allclose(got, exp, rtol=1e-9, atol=1e-9):
             return f"{op}(normalize={normalize}) of {kind} data {data.tolist()} with en={en.tolist()} ef={ef.tolist()} df={df.tolist()} gave {got.tolist()}, expected {exp.tolist()}"
